@@ -79,12 +79,38 @@ func Worker(prop string, seed int64, from, to int, tier string, out io.Writer) {
 			if rec.Poison {
 				os.Exit(4)
 			}
-		case <-time.After(20 * time.Second):
+		case <-time.After(caseTimeout()):
 			fmt.Fprintf(w, "#timeout %d\n", i)
 			w.Flush()
 			os.Exit(3)
 		}
 	}
+}
+
+// caseTimeout: 20 s per case; the parent re-runs a case that timed out ALONE with JPH_CASE_TIMEOUT=240 before it
+// believes the timeout (a loaded machine must not turn a slow case into a finding).
+func caseTimeout() time.Duration {
+	if v, err := strconv.Atoi(os.Getenv("JPH_CASE_TIMEOUT")); err == nil && v > 0 {
+		return time.Duration(v) * time.Second
+	}
+	return 20 * time.Second
+}
+
+// retryAlone runs one case in a worker of its own with the long limit; ok=false when it still does not answer.
+func retryAlone(self, prop string, seed int64, idx int, tier string) (Record, bool) {
+	cmd := exec.Command(self, "worker", prop, strconv.FormatInt(seed, 10), strconv.Itoa(idx), strconv.Itoa(idx+1), tier)
+	cmd.Env = append(os.Environ(), "GOMEMLIMIT=2GiB", "JPH_CASE_TIMEOUT=240")
+	out, _ := cmd.Output()
+	for _, line := range strings.Split(string(out), "\n") {
+		if strings.HasPrefix(line, "#") || strings.TrimSpace(line) == "" {
+			continue
+		}
+		var rec Record
+		if json.Unmarshal([]byte(line), &rec) == nil && rec.I == idx {
+			return rec, true
+		}
+	}
+	return Record{}, false
 }
 
 // ---------- Lean driver client ----------
@@ -296,7 +322,14 @@ func RunParent(o RunOpts) Summary {
 				if cur > finished {
 					what := "worker process died"
 					if timeout {
-						what = "no answer within 20 s"
+						what = "no answer within 20 s, nor within 240 s when run alone"
+						if rec, ok := retryAlone(o.Self, o.Prop, o.Seed, cur, o.Tier); ok {
+							// slow under load, not stuck: use the answer
+							rec.Tags = append(rec.Tags, "run:slow-case-answered-when-run-alone")
+							recs <- rec
+							from = cur + 1
+							continue
+						}
 					}
 					recs <- Record{I: cur, Fatal: what + ": " + firstLines(stderrBuf.String(), 12)}
 					from = cur + 1
